@@ -393,4 +393,7 @@ extern "C" void h_leaf_orig() {
     leaf_step<3, 0, false>();
 #endif
 }
+#if NV >= 4
+extern "C" void h_leaf_orig_4() { leaf_step<4, 0, false>(); }
+#endif
 extern "C" void h_leaf_assumed_split() { leaf_step<2, 0, true>(); leaf_step<2, 1, false>(); }
